@@ -21,28 +21,6 @@ pub open spec fn seal_rel<C: ContentAddrStore>(s: UnsealedState<C>, a: Option<Pr
     let s2 = if spec_tip(s1.network, s1.height, 950000) { spec_tip909(s1) } else { s1 };
     match a { None => r == s2, Some(act) => proposer_applied(s2, act, spec_tip(s2.network, s2.height, 42700), r) }
 }
-pub open spec fn spec_builtin_pools<C: ContentAddrStore>(s: UnsealedState<C>) -> bool {
-    s.pools@.contains_key(pk_mel_sym()) && s.pools@.contains_key(pk_mel_erg()) && (spec_tip(s.network, s.height, 180000) ==> s.pools@.contains_key(pk_erg_sym()))
-}
-/// invariants the state carries through every transition (C20 count invariant once TIP-906 is active, C16 built-in pools)
-pub open spec fn state_inv<C: ContentAddrStore>(s: UnsealedState<C>) -> bool {
-    s.coins.wf() && (spec_tip906(s) ==> counts_ok(s.coins@)) && (!spec_tip906(s) ==> s.coins@.counts == IMap::<Address, nat>::empty()) && origin_ok(s.coins@.coins)
-}
-/// frame of the two pool-side phases of sealing: they touch coins, pools and the fee pool only
-pub open spec fn pool_phase_frame<C: ContentAddrStore>(a: UnsealedState<C>, b: UnsealedState<C>) -> bool {
-    a.network == b.network && a.height == b.height && a.history == b.history && a.transactions == b.transactions
-    && a.fee_multiplier == b.fee_multiplier && a.tips == b.tips && a.dosc_speed == b.dosc_speed && a.stakes == b.stakes
-}
-pub proof fn lemma_two_pools<C: ContentAddrStore>(s: UnsealedState<C>) requires spec_builtin_pools(s) ensures s.pools@.dom().len() >= 2
-{
-    let a = pk_mel_sym(); let b = pk_mel_erg();
-    let d = s.pools@.dom();
-    assert(d.contains(a) && d.contains(b) && a != b);
-    let two = Set::<PoolKey>::empty().insert(a).insert(b);
-    assert(two.subset_of(d));
-    vstd::set_lib::lemma_len_subset(two, d);
-    assert(two.len() == 2);
-}
 /// C07/C13: what opening the next block does
 pub open spec fn next_rel<C: ContentAddrStore>(s: UnsealedState<C>, n: UnsealedState<C>) -> bool {
     &&& n.height.0 == s.height.0 + 1 && n.network == s.network
@@ -83,15 +61,6 @@ pub uninterp spec fn spec_next<C: ContentAddrStore>(s: SealedState<C>) -> Unseal
 pub open spec fn block_applied<C: ContentAddrStore>(s: UnsealedState<C>, block: Block, r: UnsealedState<C>) -> bool {
     exists|n: UnsealedState<C>, txx: Seq<Transaction>, mid: UnsealedState<C>|
         next_rel(s, n) && txx.no_duplicates() && txx.to_set() == block.transactions@ && #[trigger] batch_result(n, txx, mid) && seal_rel(mid, block.proposer_action, r)
-}
-pub proof fn lemma_two_pools_min<C: ContentAddrStore>(s: UnsealedState<C>)
-    requires s.pools@.contains_key(pk_mel_sym()) && s.pools@.contains_key(pk_mel_erg()) ensures s.pools@.dom().len() >= 2
-{
-    let a = pk_mel_sym(); let b = pk_mel_erg(); let d = s.pools@.dom();
-    let two = Set::<PoolKey>::empty().insert(a).insert(b);
-    assert(two.subset_of(d));
-    vstd::set_lib::lemma_len_subset(two, d);
-    assert(two.len() == 2);
 }
 // ---- C08 restart
 pub open spec fn txs_keyed(m: Map<TxHash, Transaction>) -> bool { forall|h: TxHash| m.contains_key(h) ==> spec_txhash(#[trigger] m[h]) == h }
